@@ -21,6 +21,7 @@ import (
 	"github.com/hydraide/hydraide/app/core/settings/setting"
 	"github.com/hydraide/hydraide/app/name"
 	"github.com/hydraide/hydraide/app/panichandler"
+	"github.com/hydraide/hydraide/app/verifhook"
 )
 
 type Hydra interface {
@@ -394,6 +395,9 @@ func (h *hydra) SummonSwamp(ctx context.Context, islandID uint64, swampName name
 	// immediately
 	result, _ := h.summoningSwamps.LoadOrStore(swampName.Get(), newSwampWaiter())
 	waiter, _ := result.(*SwampWaiter)
+	if verifhook.Enabled {
+		verifhook.Point("summon.looked", ctx, swampName.Get(), waiter)
+	}
 
 	// lezárjuk a következő kódrészt, így csak egyetlen rutin futhatja egyszerre egy domain néven belül
 	waiter.cond.L.Lock()
@@ -403,14 +407,23 @@ func (h *hydra) SummonSwamp(ctx context.Context, islandID uint64, swampName name
 			// Ha a kontextus megszakad, jelezzük a többi várakozó goroutinnak, hogy ne várjanak tovább
 			waiter.cond.Broadcast()
 			waiter.cond.L.Unlock()
+			if verifhook.Enabled {
+				verifhook.Point("summon.giveup", ctx, swampName.Get(), waiter)
+			}
 			return nil, ctx.Err() // Visszatérünk a kontextus hibaüzenetével
 		default:
 			atomic.AddInt32(&waiter.count, 1)
+			if verifhook.Enabled {
+				verifhook.Point("summon.wait", ctx, swampName.Get(), waiter)
+			}
 			waiter.cond.Wait()
 		}
 	}
 	waiter.ready = true
 	waiter.cond.L.Unlock()
+	if verifhook.Enabled {
+		verifhook.Point("summon.inside", ctx, swampName.Get(), waiter)
+	}
 
 	defer func() {
 		// Swamp véglegesítése után
@@ -418,11 +431,20 @@ func (h *hydra) SummonSwamp(ctx context.Context, islandID uint64, swampName name
 		waiter.ready = false
 		waiter.cond.Broadcast() // Értesítjük a többi várakozót
 		waiter.cond.L.Unlock()
+		if verifhook.Enabled {
+			verifhook.Point("summon.leave.unready", ctx, swampName.Get(), waiter)
+		}
 		// csökkentjük a várakozó goroutinok számát
 		atomic.AddInt32(&waiter.count, -1)
+		if verifhook.Enabled {
+			verifhook.Point("summon.leave.dec", ctx, swampName.Get(), waiter)
+		}
 		// ha nincs több várakozó goroutin, akkor töröljük a várakozó mapből a swampot
 		if atomic.LoadInt32(&waiter.count) == 0 {
 			h.summoningSwamps.Delete(swampName.Get())
+			if verifhook.Enabled {
+				verifhook.Point("summon.leave.del", ctx, swampName.Get(), waiter)
+			}
 		}
 	}()
 
@@ -498,6 +520,9 @@ func (h *hydra) SummonSwamp(ctx context.Context, islandID uint64, swampName name
 
 			// The swamp does not exist in memory, so we need to create it.
 			// During creation, other processes trying to access this swamp will still have to wait.
+			if verifhook.Enabled {
+				verifhook.Point("summon.create", ctx, swampName.Get(), waiter)
+			}
 			swampObject = h.createNewSwamp(islandID, swampName)
 
 			// Store the swamp in the hydra map, which is a sync.Map.
